@@ -127,10 +127,12 @@ CLAIMED.update({
     'C02': {
         'text': "Proved in Lean for every byte string: the parser model rejects every input whose literal never closes according to an independent reference lexer, and no expression "
                 "node of an accepted input starts or ends strictly inside a literal or comment region (c02_opaque, with bridge lemmas equating the parser's two skippers with the lexer and "
-                "machine-checked witnesses that neither hypothesis can be dropped); instantiated for the Go-faithful decoder (c02_opaque_go). Tied to parser.go by the L1 correspondence; the "
-                "same predicate holdsC02 is evaluated on the implementation's nodes.",
+                "machine-checked witnesses that neither hypothesis can be dropped); instantiated for the Go-faithful decoder (c02_opaque_go). Metamorphic form (c02_blank_invariant_go, by a relational pass over all parser "
+                "functions): the query and the query with the contents of all its literals and comments overwritten are parsed into the same node kinds and sizes, or rejected at the same line and "
+                "column. Tied to parser.go by the L1 correspondence; both predicates (holdsC02, holdsC02opaque) are evaluated on the implementation's nodes, the second by parsing the blanked "
+                "query with the real parser; L2 checks that literal values of an INSERT reach the driver byte for byte.",
         'note': PARSER_NOTE + "; hypotheses AsciiDec (ASCII byte decodes to itself) and ClassAscii (quotes, '-', '/', blanks are not name characters) are proved for the model's decoder and for every classifier agreeing with ASCII tables",
-        'technique': 'Lean 4 proof (lexer-state invariant carried through every parse function) + differential correspondence',
+        'technique': 'Lean 4 proof (lexer-state invariant and a relational blanking pass carried through every parse function) + differential and metamorphic correspondence',
         'design_ref': 'DESIGN.md section 5 C02',
     },
     'C12': {
@@ -232,7 +234,7 @@ NOT_CLAIMED_REASON = {}
 
 _P = 'SqlairProofs.Props.'
 PROP_MODULES = {
-    'C01': [_P + 'Parser', _P + 'Bind', _P + 'E2E'], 'C02': [_P + 'C02'], 'C19': [_P + 'Parser', _P + 'C19Shift'],
+    'C01': [_P + 'Parser', _P + 'Bind', _P + 'E2E'], 'C02': [_P + 'C02', _P + 'Opaque'], 'C19': [_P + 'Parser', _P + 'C19Shift'],
     'C03': [_P + 'Bind'], 'C04': [_P + 'Bind'], 'C05': [_P + 'Bind'], 'C07': [_P + 'Bind', _P + 'E2E', _P + 'Typed'], 'C08': [_P + 'Bind', _P + 'Typed'], 'C16': [_P + 'Bind'],
     'C06': [_P + 'Scan'], 'C09': [_P + 'Cache'], 'C10': [_P + 'Cache'], 'C11': [_P + 'Cache'],
     'C12': [_P + 'Runtime'], 'C13': [_P + 'Runtime'], 'C14': [_P + 'Runtime'], 'C15': [_P + 'Runtime'], 'C20': [_P + 'Runtime'],
